@@ -776,12 +776,20 @@ package plugin
 //@   ensures result1 != nil ==> result0 == nil && lsn == old(lsn)   [C18.mk]
 //@   ensures listens <= old(listens) + 1   [C16.listen]
 
+//@ pred port_env_ok(k) := getenv(k) == "" || (pint_ok(getenv(k)) && 0 <= pint_val(getenv(k)) && pint_val(getenv(k)) <= 65535)
+//@ pred port_env(k) := ite(getenv(k) == "", 0, pint_val(getenv(k)))
+
 //@ func serverListener_tcp
-//@   trusted
+//@   nopanic [C17.total] [C16.total] [C18.total]
 //@   nonblocking
-//@   modifies lsn, files, listens
-//@   ensures result1 == nil ==> result0 != nil && lsn == old(lsn) + 1
-//@   ensures result1 != nil ==> result0 == nil && lsn == old(lsn)
+//@   modifies lsn, files, listens, heap_fresh
+//@   loop#1 frame fresh_only
+//@   loop#1 invariant minPort == port_env("PLUGIN_MIN_PORT") && maxPort == port_env("PLUGIN_MAX_PORT") && minPort <= port && port <= maxPort + 1 && listens == old(listens) + (port - minPort) && lsn == old(lsn) && files == old(files)
+//@   at call fmt.Sprintf("127.0.0.1:%d")#1 assert len(arg1) == 1 && arg1[0] == iface(port) && port_env("PLUGIN_MIN_PORT") <= port && port <= port_env("PLUGIN_MAX_PORT")   [C17.ports]
+//@   at call net.Listen#1 assert arg0 == "tcp"   [C17.ports]
+//@   ensures result1 == nil ==> result0 != nil && lsn == old(lsn) + 1   [C18.mk]
+//@   ensures result1 != nil ==> result0 == nil && lsn == old(lsn)   [C18.mk]
+//@   ensures port_env_ok("PLUGIN_MIN_PORT") && port_env_ok("PLUGIN_MAX_PORT") && port_env("PLUGIN_MIN_PORT") <= port_env("PLUGIN_MAX_PORT") && result1 != nil ==> listens == old(listens) + (port_env("PLUGIN_MAX_PORT") - port_env("PLUGIN_MIN_PORT") + 1)   [C17.ports]
 
 //@ func serverListener
 //@   nopanic [C18.total] [C16.total]
